@@ -53,6 +53,13 @@ def nextAll : Nat → Nat → Sys → List String → Sys × List String × Opti
     let text := s!"e{i}=[" ++ joinWith "," (r.2.1.map showEv) ++ "]"
     if r.2.2 then (r.1, [text], some i) else nextAll fuel (i + 1) r.1 (acc ++ [text])
 
+/-- `*` = the lowest substream id under negotiation on connection `c`. -/
+def pickSid (s : Sys) (c : Nat) (tok : String) : Option Nat :=
+  if tok = "*" then
+    ((s.nego.filter (fun x => x.conn == c)).map (·.sid)).foldl
+      (fun acc x => match acc with | none => some x | some a => some (min a x)) none
+  else tok.toNat?
+
 def step (st : DState) (line : String) : DState × String :=
   let s := st.sys
   match tokens line with
@@ -99,19 +106,25 @@ def step (st : DState) (line : String) : DState × String :=
           | .none_ => "none")
       | none => (st, "bad-op")
     | ["subopen", c, sid] =>
-      match c.toNat?, sid.toNat? with
-      | some c, some sid =>
-        match s.subOpen c sid with
-        | some s' => ({ st with sys := s' }, "ok")
-        | none => (st, "unknown")
-      | _, _ => (st, "bad-op")
+      match c.toNat? with
+      | some c =>
+        match pickSid s c sid with
+        | some sid =>
+          match s.subOpen c sid with
+          | some s' => ({ st with sys := s' }, s!"ok {sid}")
+          | none => (st, "unknown")
+        | none => (st, if sid = "*" || sid.toNat?.isSome then "unknown" else "bad-op")
+      | none => (st, "bad-op")
     | ["subfail", c, sid] =>
-      match c.toNat?, sid.toNat? with
-      | some c, some sid =>
-        match s.subFail c sid with
-        | some s' => ({ st with sys := s' }, "ok")
-        | none => (st, "unknown")
-      | _, _ => (st, "bad-op")
+      match c.toNat? with
+      | some c =>
+        match pickSid s c sid with
+        | some sid =>
+          match s.subFail c sid with
+          | some s' => ({ st with sys := s' }, s!"ok {sid}")
+          | none => (st, "unknown")
+        | none => (st, if sid = "*" || sid.toNat?.isSome then "unknown" else "bad-op")
+      | none => (st, "bad-op")
     | ["subin", c, i] =>
       match c.toNat?, i.toNat? with
       | some c, some i =>
